@@ -228,6 +228,21 @@ Section BindProofs.
     apply (merkle_root_injective_l H hlen H_len). congruence.
   Qed.
 
+  (* The binding rule is on the RETURNED answer itself: the Merkle root over
+     its entries, in the order they have in the returned bytes, is the hash the
+     verified header commits to. *)
+  Theorem verify_next_validators_hash_l (vs : validators) (lb : light_block) :
+    verify_next_validators H vs lb = BOk ->
+    vs_height vs = wrap_i64 (lb_height lb + 1) /\
+    exists l s, vs_set vs = Some (l, s) /\ root H (map v_bytes l) = lb_next_validators_hash lb.
+  Proof.
+    unfold verify_next_validators. intros V.
+    destruct (Z.eqb_spec (vs_height vs) (wrap_i64 (lb_height lb + 1))) as [E|]; [|discriminate]. cbn [negb] in V.
+    destruct (vs_set vs) as [[l s]|]; [|discriminate].
+    destruct (bytes_eqb (root H (map v_bytes l)) _) eqn:R; [|discriminate]. apply bytes_eqb_eq in R.
+    split; [exact E|]. exists l, s. split; [reflexivity|exact R].
+  Qed.
+
   (* ---------- parameters ---------- *)
   Theorem verify_parameters_binds_l (p1 p2 : parameters) (sp : option bytes) (lb : light_block) :
     verify_parameters H p1 sp lb = BOk -> verify_parameters H p2 sp lb = BOk ->
@@ -315,6 +330,22 @@ Section BindProofs.
     unfold core_get_validators. destruct lbo as [lb|]; [left; eauto|]. intros V. right.
     destruct (Z.ltb_spec height 2); [discriminate|]. destruct lbp as [p|]; [|discriminate].
     repeat split; try lia. eauto.
+  Qed.
+
+  (* core_validators_binds: on the fallback branch (the height is one above
+     what the light client can verify) an accepted provider answer -- the very
+     value GetValidators returns -- hashes, entry by entry in its own order, to
+     NextValidatorsHash of the verified light block below; two accepted
+     answers therefore carry the same entry list (or H collides). *)
+  Theorem core_validators_binds_l (height : Z) (lbp : option light_block) (vs : validators) :
+    core_get_validators H None height lbp vs = BOk ->
+    (2 <= height)%Z /\
+    exists p l s, lbp = Some p /\ vs_set vs = Some (l, s) /\ vs_height vs = wrap_i64 (lb_height p + 1) /\
+      root H (map v_bytes l) = lb_next_validators_hash p.
+  Proof.
+    intros V. apply core_get_validators_binds_l in V as [[lb E]|(_ & Hh & p & -> & V)]; [discriminate|].
+    apply verify_next_validators_hash_l in V as (E & l & s & S & R).
+    split; [exact Hh|]. exists p, l, s. repeat split; assumption.
   Qed.
 
   Theorem core_submit_tx_with_proof_binds_l (lbo : option light_block) (p : option proof) (tx : bytes) (txs : list bytes) :
